@@ -28,6 +28,11 @@ type VarCase struct {
 	Args    []string `json:"args"`
 	Dash    bool     `json:"dash"`
 	Vals    []string `json:"vals"` // value per level
+	// a second name y, defined at the levels of Mask2 (0 = not used) with the values Vals2; SetFirst puts
+	// its --set flag before the one of x. The two names share nothing but the command line and the files.
+	Mask2    int      `json:"mask2,omitempty"`
+	Vals2    []string `json:"vals2,omitempty"`
+	SetFirst bool     `json:"set_first,omitempty"`
 }
 
 func (c VarCase) canon() string { b, _ := json.Marshal(c); return string(b) }
@@ -45,27 +50,59 @@ func runVars(c VarCase, dir string) error {
 	os.MkdirAll(filepath.Join(dir, "home"), 0o755)
 	os.MkdirAll(filepath.Join(dir, "tmpd"), 0o755)
 	has := func(i int) bool { return c.Mask&(1<<i) != 0 }
+	has2 := func(i int) bool { return c.Mask2&(1<<i) != 0 }
+	ycmd := ""
+	if c.Mask2 != 0 {
+		ycmd = `printf 'Y=%s\n' '{{ .y }}'`
+	}
 	cmd := `printf 'X=%s other=%s R=%s T=%s A=[%s] L=%s E=[%s]\n' '{{ .x }}' '{{ .other }}' '{{ .Root }}' '{{ .TempDir }}' '{{ .Args }}' '{{ range .ArgsList }}<{{ . }}>{{ end }}' "$ARGS"`
 	tvars := gen.Map{{K: "other", V: "taskother"}}
 	if has(2) {
 		tvars = tvars.Set("x", c.Vals[2])
 	}
-	task := gen.Map{{K: "command", V: gen.List{cmd}}, {K: "variables", V: tvars}}
+	if has2(2) {
+		tvars = tvars.Set("y", c.Vals2[2])
+	}
+	cmds := gen.List{cmd}
+	if ycmd != "" {
+		cmds = append(cmds, ycmd)
+	}
+	task := gen.Map{{K: "command", V: cmds}, {K: "variables", V: tvars}}
 	cfg := gen.Map{}
-	if has(0) {
-		cfg = cfg.Set("variables", gen.Map{{K: "x", V: c.Vals[0]}, {K: "unrelated", V: "u"}})
+	if has(0) || has2(0) {
+		cv := gen.Map{{K: "unrelated", V: "u"}}
+		if has(0) {
+			cv = cv.Set("x", c.Vals[0])
+		}
+		if has2(0) {
+			cv = cv.Set("y", c.Vals2[0])
+		}
+		cfg = cfg.Set("variables", cv)
 	}
 	cfg = cfg.Set("tasks", gen.Map{{K: "tk", V: task}})
 	stage := gen.Map{{K: "task", V: "tk"}}
-	if has(3) {
-		stage = stage.Set("variables", gen.Map{{K: "x", V: c.Vals[3]}})
+	if has(3) || has2(3) {
+		sv := gen.Map{}
+		if has(3) {
+			sv = sv.Set("x", c.Vals[3])
+		}
+		if has2(3) {
+			sv = sv.Set("y", c.Vals2[3])
+		}
+		stage = stage.Set("variables", sv)
 	}
 	cfg = cfg.Set("pipelines", gen.Map{{K: "pp", V: gen.List{stage}}})
 	os.WriteFile(filepath.Join(dir, "t.yaml"), []byte(gen.YAML(cfg)), 0o644)
 	env := cli.Env{Bin: drv.Bin(), Dir: dir, Home: filepath.Join(dir, "home"), Extra: []string{"TMPDIR=" + filepath.Join(dir, "tmpd")}}
 	args := []string{"-c", "t.yaml", "--raw"}
+	if has2(1) && c.SetFirst {
+		args = append(args, "--set", "y="+c.Vals2[1])
+	}
 	if has(1) {
 		args = append(args, "--set", "x="+c.Vals[1])
+	}
+	if has2(1) && !c.SetFirst {
+		args = append(args, "--set", "y="+c.Vals2[1])
 	}
 	if c.AsStage {
 		args = append(args, "pp")
@@ -90,6 +127,17 @@ func runVars(c VarCase, dir string) error {
 	}
 	if r.Exit != 0 || !strings.Contains(r.Stdout, want) {
 		return fmt.Errorf("argv %q, x defined at %v: want line %q, got exit %d stdout %q stderr %q", args, present(c.Mask), want, r.Exit, r.Stdout, r.Stderr)
+	}
+	if c.Mask2 != 0 {
+		top2 := -1
+		for i := 0; i < 4; i++ {
+			if has2(i) {
+				top2 = i
+			}
+		}
+		if wantY := "Y=" + c.Vals2[top2] + "\n"; !strings.Contains(r.Stdout, wantY) {
+			return fmt.Errorf("argv %q, second name y defined at %v (x at %v): want line %q, stdout %q stderr %q", args, present(c.Mask2), present(c.Mask), wantY, r.Stdout, r.Stderr)
+		}
 	}
 	return nil
 }
@@ -122,11 +170,27 @@ func TestVars(t *testing.T) {
 			}
 		}
 		vals := rapid.Permutation([]string{"v_config", "a_set=eq=1", "z_task", "m_stage"}).Draw(rt, "vals")
+		// the second name: absent in a third of the cases, otherwise at a drawn subset of the levels
+		mask2 := 0
+		if rapid.IntRange(0, 2).Draw(rt, "second-name") > 0 {
+			mask2 = rapid.IntRange(1, 15).Draw(rt, "mask2")
+			if !asStage {
+				mask2 &^= 8
+			}
+		}
+		vals2 := rapid.Permutation([]string{"y_config", "b_set", "y_task", "n_stage"}).Draw(rt, "vals2")
+		setFirst := rapid.Bool().Draw(rt, "y-set-first")
 		for mask := 1; mask < 16; mask++ {
 			if !asStage && mask&8 != 0 {
 				continue
 			}
 			c := VarCase{Mask: mask, AsStage: asStage, Args: words, Dash: dash, Vals: vals}
+			if mask2 != 0 {
+				c.Mask2, c.Vals2, c.SetFirst = mask2, vals2, setFirst
+				if mask&2 != 0 && mask2&2 != 0 {
+					drv.Class("two --set flags")
+				}
+			}
 			k++
 			dir := filepath.Join(root, fmt.Sprint("c", k))
 			os.MkdirAll(dir, 0o755)
